@@ -219,29 +219,45 @@ fn decoded_count(tier: Tier) -> u64 {
 fn exec_decoded(plan: &Plan, st: &mut Stats) -> Result<(), Violation> {
     use rosu_map::Beatmap;
     let Ok(text) = std::str::from_utf8(&plan.data) else { return Ok(()) };
-    // mode-agnostic part: for every slider, dropping the cached curve and recomputing it must not change anything
+    // mode-agnostic part: for every slider, dropping the cached curve and recomputing it must not change anything —
+    // as decoded, and again after the encoder has walked the map (whose mode a user may have changed in between: a
+    // path keeps the mode it was created for)
     {
         let mut map: rosu_map::Beatmap = rosu_map::from_bytes(&plan.data).map_err(|e| Violation::new("C18/decode-error", "err", e.to_string()))?;
-        for (k, h) in map.hit_objects.iter_mut().enumerate() {
-            let HitObjectKind::Slider(ref mut sl) = h.kind else { continue };
-            let cached = {
-                let c = sl.path.curve();
-                snap(c.path(), c.lengths())
-            };
-            let mut twin = sl.path.clone();
-            twin.clear_curve();
-            let recomputed = {
-                let c = twin.curve();
-                snap(c.path(), c.lengths())
-            };
-            let b = {
-                let mut ub = CurveBuffers::default();
-                let c = twin.borrowed_curve(&mut ub);
-                snap(c.path(), c.lengths())
-            };
-            st.inc("ops.cache-vs-recomputed");
-            if cached != recomputed || b != recomputed {
-                return Err(Violation::new("C18/cache-differs-from-recomputation", "stale-cache", format!("slider #{k}: the curve cached by the decoder has {} path points, the same SliderPath recomputes {} after clear_curve() ({} control points)", cached.path.len(), recomputed.path.len(), sl.path.control_points().len())));
+        for pass in 0..2 {
+            for (k, h) in map.hit_objects.iter_mut().enumerate() {
+                let HitObjectKind::Slider(ref mut sl) = h.kind else { continue };
+                let cached = {
+                    let c = sl.path.curve();
+                    snap(c.path(), c.lengths())
+                };
+                let mut twin = sl.path.clone();
+                twin.clear_curve();
+                let recomputed = {
+                    let c = twin.curve();
+                    snap(c.path(), c.lengths())
+                };
+                let b = {
+                    let mut ub = CurveBuffers::default();
+                    let c = twin.borrowed_curve(&mut ub);
+                    snap(c.path(), c.lengths())
+                };
+                st.inc("ops.cache-vs-recomputed");
+                if cached != recomputed || b != recomputed {
+                    let who = if pass == 0 { "decoder" } else { "encoder" };
+                    return Err(Violation::new("C18/cache-differs-from-recomputation", "stale-cache", format!("slider #{k}: the curve cached by the {who} has {} path points, the same SliderPath recomputes {} after clear_curve() ({} control points)", cached.path.len(), recomputed.path.len(), sl.path.control_points().len())));
+                }
+            }
+            if pass == 0 {
+                let em = plan.get_or("edit_mode", -1);
+                if em >= 0 {
+                    map.mode = mode_of(em);
+                    st.inc("ops.decoded-map-mode-edited-before-encode");
+                }
+                let mut out = Vec::new();
+                if map.encode(&mut out).is_err() {
+                    break;
+                }
             }
         }
     }
@@ -476,6 +492,9 @@ impl Scenario for C18 {
             }
             p.data = text.into_bytes();
             p.set("keep", rng.below(3) as i64);
+            if rng.chance(1, 4) {
+                p.set("edit_mode", rng.below(4) as i64);
+            }
             if rng.chance(1, 3) {
                 for _ in 0..1 + rng.below(3) {
                     p.ops.push(Op::new("edit", &[rng.below(64) as f64, rng.below(4) as f64, *rng.pick(&[16.0, -8.0, 0.5, 100.0, 0.0]), *rng.pick(&[-8.0, 16.0, 0.25, 0.0, -100.0])]));
@@ -538,6 +557,7 @@ impl Scenario for C18 {
                 16 => Op::new("sp_pop", &[slot]),
                 17 => Op::new("sp_set", &[slot, rng.below(6) as f64, rng.range(0, 512) as f64, rng.range(0, 384) as f64]),
                 18 => Op::new("sp_len", &[slot, gen_len(&mut rng)]),
+                _ if rng.chance(1, 6) => Op::new("bufs_clone", &[rng.below(2) as f64]),
                 _ => {
                     if rng.chance(1, 2) {
                         Op::new("sp_clear", &[slot])
@@ -720,6 +740,15 @@ impl Scenario for C18 {
                     }
                     prev_nonempty = !pts.is_empty();
                     prev_kind = if op.k == "owned" { "owned" } else { "borrowed" };
+                }
+                "bufs_clone" => {
+                    // the shared buffers are replaced by a clone of themselves (or cloned and the clone dropped): a copy
+                    // must be as good as the original
+                    st.inc("ops.buffers-cloned");
+                    let c = bufs.clone();
+                    if op.iarg(0) == 0 {
+                        bufs = c;
+                    }
                 }
                 "sp_new" => {
                     let Some(pts) = getlist(op.iarg(1)) else { return Ok(()) };
@@ -966,6 +995,8 @@ impl Scenario for C18 {
             "ops.mutate-points",
             "ops.mutate-length",
             "ops.mutate-churn",
+            "ops.buffers-cloned",
+            "ops.decoded-map-mode-edited-before-encode",
             "ops.histories-with-thread-hand-offs",
             "ops.lookup-histories",
             "ops.decoded-map-edits",
